@@ -299,6 +299,16 @@ func init() {
 				return "err " + curWorld.state()
 			}
 			return "ok " + curWorld.state()
+		case "w.setmap":
+			// a new PWM map is installed on the SAME controller the way computePwmMap does: assign, then derive the
+			// supported inputs with the real updateDistinctPwmValues
+			pm, hasMap := parseIntMap(a.str("map", "nil"))
+			if !hasMap {
+				return "bad-op"
+			}
+			curWorld.ctl.VerifSetPwmMap(pm)
+			curWorld.ctl.VerifUpdateDistinct()
+			return "ok distinct=" + fmtInts(curWorld.ctl.VerifDistinct()) + " " + curWorld.state()
 		case "w.dev":
 			curWorld.applyDev(a)
 			return "ok " + curWorld.state()
